@@ -294,6 +294,32 @@ func FixedCorpus() []*Unit {
 		wl.O(o, "one", 6, M("verif.alpha.types.Coin"))
 		wl.O(o, "kind", 7, E("verif.alpha.types.Denom"))
 		out = append(out, &Unit{Name: "beta/types", File: fb, Label: []string{"imports a Go package with the same package name under another import path"}})
+		// two more Go packages called "types", and a file whose fields come from all
+		// four of them: protogen hands out import aliases (types, types1, ...) in
+		// the order the packages are first mentioned
+		deps := []string{"verif/alpha/types.proto", "verif/beta/types.proto"}
+		for _, n := range []string{"gamma", "delta"} {
+			fg := NewFile("verif/"+n+"/types.proto", "verif."+n+".types", GoRoot+n+"/types")
+			fg.Enum("Unit", "UNIT_UNSPECIFIED", 0, "UNIT_ONE", 1)
+			g := fg.Msg("Params")
+			g.F("n", 1, S(Sint32))
+			g.F("unit", 2, E("verif."+n+".types.Unit"))
+			out = append(out, &Unit{Name: n + "/types", File: fg, Label: []string{"Go package named types (imported)"}})
+			deps = append(deps, "verif/"+n+"/types.proto")
+		}
+		fu := NewFile("verif/usetypes.proto", "verif.usetypes", GoRoot+"usetypes", deps...)
+		tx := fu.Msg("Tx")
+		tx.F("delta", 1, M("verif.delta.types.Params"))
+		tx.R("coins", 2, M("verif.alpha.types.Coin"))
+		tx.F("wallet", 3, M("verif.beta.types.Wallet"))
+		tx.Map("gammas", 4, String, M("verif.gamma.types.Params"))
+		tx.F("unit", 5, E("verif.gamma.types.Unit"))
+		tx.R("units", 6, E("verif.delta.types.Unit"))
+		ot := tx.Oneof("body")
+		tx.O(ot, "coin", 7, M("verif.alpha.types.Coin"))
+		tx.O(ot, "params", 8, M("verif.delta.types.Params"))
+		tx.O(ot, "denom", 9, E("verif.alpha.types.Denom"))
+		out = append(out, &Unit{Name: "usetypes", File: fu, Label: []string{"fields from four Go packages that are all called types"}})
 	}
 
 	// ---- dupnames: messages sharing a short name under different parents, a
@@ -528,10 +554,25 @@ func FixedCorpus() []*Unit {
 					proto.SetExtension(o, cosmos_proto.E_MethodAddedIn, "verif v1")
 					return o
 				}(),
+			}, {
+				Name: proto.String("Adopt"), InputType: proto.String(".verif.opts.Dog"), OutputType: proto.String(".verif.opts.Receipt"),
+			}, {
+				Name: proto.String("Watch"), InputType: proto.String(".verif.opts.Req"), OutputType: proto.String(".google.protobuf.Any"), ServerStreaming: proto.Bool(true),
+			}},
+		}, &descriptorpb.ServiceDescriptorProto{
+			Name: proto.String("Vet"),
+			Method: []*descriptorpb.MethodDescriptorProto{{
+				Name: proto.String("Examine"), InputType: proto.String(".verif.opts.Dog"), OutputType: proto.String(".verif.opts.Dog"), ClientStreaming: proto.Bool(true), ServerStreaming: proto.Bool(true),
+			}, {
+				Name: proto.String("Bill"), InputType: proto.String(".verif.opts.Receipt"), OutputType: proto.String(".verif.opts.Req"),
 			}},
 		})
+		rc := f.Msg("Receipt")
+		rc.F("amount", 1, S(Uint64))
 		out = append(out, u)
 	}
+
+	out = append(out, customOptsUnit())
 
 	return out
 }
